@@ -202,7 +202,7 @@ class StorageSetup(Contract):
         yield ('C07.storage.mapping.rows', S.implies(S.gt(n, 0), lambda: S.eq(m.n, nv)))
         yield ('C07.storage.mapping.index', S.forall(nv, lambda j: S.eq(m.index.f(j), j)))
         yield ('C07.storage.mapping.step', S.forall(nv, lambda j: S.eq(col('time_step').f(j), S.ite(
-            S.lt(j, n), rI.f(j), S.ite(S.lt(j, 2 * n), rI.f(j - n), rI.f(j - 2 * n))))))
+            S.lt(j, n), lambda: rI.f(j), lambda: S.ite(S.lt(j, 2 * n), lambda: rI.f(j - n), lambda: rI.f(j - 2 * n))))))
         yield ('C08.storage.window', S.forall(nv, lambda j: S.and_(S.ge(col('time_step').f(j), 0), S.lt(col('time_step').f(j), T))))
         yield ('C07.storage.mapping.asset', S.forall(nv, lambda j: S.eq(col('asset').f(j), so.get('name'))))
         disp = lambda j: S.lt(j, 2 * n) if case['nosim'] else True
@@ -237,7 +237,7 @@ class StorageSetup(Contract):
         k = z3.Int('menu!k')
         v = ctx['vals']
         return [z3.ForAll([k], z3.Implies(z3.And(k >= 0, k < ctx['R'].get('T')), rI(k) == rI(0) + k)), ctx['g'].get('T') >= 1], [
-                H.real('wacc') == 0, z3.ForAll([k], ctx['df'](k) == 1)]
+                H.real('wacc') == 0, z3.ForAll([k], ctx['df'](k) == 1), z3.ForAll([k], ctx['g'].get('__fun__')['dt'](k) == 1)]
 
     def native(self, case, P):
         import numpy as np
